@@ -43,6 +43,9 @@ long oggpack_read(oggpack_buffer *b,int bits){
 #ifdef BITSRC_HOOK
     BITSRC_HOOK(bitsrc_calls,ret);
 #endif
+#ifdef BITSRC_HOOK2
+    BITSRC_HOOK2(bitsrc_calls,(bits-b->endbit),ret);   /* also the field width: harnesses bound count fields by their width */
+#endif
     bitsrc_calls++;
     b->endbyte+=bits/8; b->endbit=bits&7;
     return ret; }
